@@ -142,6 +142,9 @@ type Policy struct {
 	Name           string
 	Shuffle        bool // pick uniformly among enabled system actions instead of the eager order
 	HoldWatch      int  // permille: chance per step that watch frames are not deliverable this step
+	// HoldStream: watch streams whose next frame is not deliverable for the time being (one
+	// resource's watch is slow while the others keep up). Must not draw from the tape.
+	HoldStream func(w *World, ws *WatchStream) bool
 	APIFault       int  // permille per served in-sync request
 	APIFaults      []string
 	HoldHook       func(h *HookRec) bool // hook calls that are not answered for the time being
@@ -946,6 +949,14 @@ func (w *World) Deliver(ws *WatchStream) bool {
 	return false
 }
 
+// NextFrame is the event a stream would deliver next (nil: nothing pending).
+func (w *World) NextFrame(ws *WatchStream) *Event {
+	if !w.streamPending(ws) {
+		return nil
+	}
+	return &w.Store.History[ws.cursor]
+}
+
 func (w *World) streamPending(ws *WatchStream) bool {
 	if ws.ended || ws.body.isClosed() {
 		return false
@@ -1151,6 +1162,10 @@ func (w *World) StepOnce(p *Policy) bool {
 	if !hold {
 		for _, ws := range w.OpenStreams() {
 			if w.streamPending(ws) {
+				if p.HoldStream != nil && p.HoldStream(w, ws) {
+					w.Probes["watch-frame-held-back"]++
+					continue
+				}
 				acts = append(acts, action{kind: "deliver", ws: ws})
 			}
 		}
